@@ -89,4 +89,47 @@ def register(g):
                  'end Rj.Generated']
         write('Skeletons.lean', '\n'.join(lines) + '\n')
 
-    return {'defaults': defaults, 'skeletons': skeletons}
+    def sites():
+        import re as _re
+        rows = []
+        for f in ('src/boss_sync.rs', 'src/boss_launch.rs', 'src/boss_frontend.rs'):
+            src = strip_comments(read(f))
+            for m in _re.finditer(r'(\w+(?:\.\w+)*)\s*\.send_command\(\s*Command::(\w+)', src):
+                recv, variant = m.group(1), m.group(2)
+                handle = 'src' if 'src_comms' in recv else ('dest' if 'dest_comms' in recv else ('self' if recv == 'self' else recv))
+                # enclosing block headers (brace matching backwards)
+                depth, i, guards = 0, m.start(), []
+                while i > 0:
+                    i -= 1
+                    ch = src[i]
+                    if ch == '}': depth += 1
+                    elif ch == '{':
+                        if depth == 0:
+                            j = max(src.rfind('\n', 0, i), src.rfind(';', 0, i), src.rfind('}', 0, i), src.rfind('{', 0, i))
+                            guards.append(' '.join(src[j + 1:i].split()))
+                        else:
+                            depth -= 1
+                guarded = any(_re.fullmatch(r'(?:let result = Ok\()?if !ctx\.dry_run', g) for g in guards)
+                fn = _re.findall(r'\bfn\s+(\w+)', src[:m.start()])
+                rows.append((f, fn[-1] if fn else '', handle, variant, guarded))
+        # `let result = Ok(if !ctx.dry_run { ctx.dest_comms.send_command(c)?; }` sends a variable: the delete site
+        bs = strip_comments(read('src/boss_sync.rs'))
+        m = _re.search(r'if\s*!\s*ctx\.dry_run\s*\{\s*ctx\.dest_comms\.send_command\(c\)\?;', fn_body(bs, 'delete_dest_entry') or '')
+        dd = fn_body(bs, 'delete_dest_entry') or ''
+        for v in _re.findall(r'Command::(Delete\w+)\s*\{', dd):
+            rows.append(('src/boss_sync.rs', 'delete_dest_entry', 'dest', v, m is not None))
+        if not any(r[3].startswith('Delete') for r in rows):
+            status['sites:delete'] = 'not recognised'
+        unguarded_var = _re.findall(r'(\w+_comms)\s*\.send_command\(\s*([a-z_]\w*)\s*\)', bs)
+        extra = [(h, v) for h, v in unguarded_var if not (v == 'c' and 'dest' in h)]
+        if extra:
+            status['sites:opaque'] = f'send_command of a variable that is not recognised: {extra}'
+            for h, v in extra:
+                rows.append(('src/boss_sync.rs', '?', 'src' if 'src' in h else 'dest', 'Opaque', False))
+        lines = ['namespace Rj.Generated', 'structure Site where', '  file : String', '  fn : String', '  handle : String', '  variant : String', '  dryGuarded : Bool', '  deriving DecidableEq, Repr',
+                 'def sites : List Site := [']
+        lines.append(',\n'.join(f'  ⟨{lean_str(a)}, {lean_str(b)}, {lean_str(c)}, {lean_str(d)}, {"true" if e else "false"}⟩' for a, b, c, d, e in rows))
+        lines += [']', 'end Rj.Generated']
+        write('Sites.lean', '\n'.join(lines) + '\n')
+
+    return {'defaults': defaults, 'skeletons': skeletons, 'sites': sites}
